@@ -212,6 +212,16 @@ func perform(out *os.File, sc *script, kind string, req rc.Envelope, action stri
 	case action == "exit_after_read":
 		ev("fault", "action", action, "kind", kind)
 		exit(sc.ExitCode)
+	case action == "oversize_neg":
+		// a length prefix with the top bit set
+		write([]byte{0xff, 0xff, 0xff, 0xff, 1, 2, 3})
+		ev("fault", "action", action, "kind", kind)
+		exit(sc.ExitCode)
+	case action == "raw_garbage":
+		// bytes that are not a frame at all
+		write([]byte{0xde, 0xad, 0xbe, 0xef, 0xca, 0xfe, 0xba, 0xbe, 0x80, 0x00})
+		ev("fault", "action", action, "kind", kind)
+		exit(sc.ExitCode)
 	case action == "oversize":
 		write([]byte{0x7f, 0xff, 0xff, 0xff, 1, 2, 3})
 		ev("fault", "action", action, "kind", kind)
